@@ -36,7 +36,11 @@ RULE = ('BAM files produced by the spec-level encoder (Python twin of Coq Model.
         'CIGAR operations; files made of explicit gzip members (BGZF blocks, plain gzip members of other compression levels, empty '
         'members / EOF blocks in the middle, with or without a final EOF block) whose borders lie on record borders, inside the 4 '
         'block_size bytes, next to record borders, inside the header, one-byte members, with chunk sizes whose chunk borders '
-        'coincide with member borders.  non-trivial = at least two '
+        'coincide with member borders.  Sessions on ONE read table (about 45 % of the cases): a random interleaving of decode column X '
+        'of object A / take selection B of A by mask, index list with repeats, permutation, slice (also of a selection) / decode '
+        'column Y of B or again of A / alignment_to_interval on objects / str(object) before decoding / two selections decoded '
+        'alternately; every column of every object must be the spec value of exactly that object\'s records in its order.  '
+        'non-trivial = at least two '
         'records that differ in name length, CIGAR count or l_seq parity')
 EXHAUSTIVE = {'quick': False, 'thorough': False}
 TIE = 'translator+correspondence'   # translate/gen_c16.py -> Gen/C16.v, Bridge/C16.v, theorem C16_source_tie; plus the
@@ -435,6 +439,93 @@ def _writes(rng, case, n_extra=2):
     return ws
 
 
+VAR_COLS = [1, 5, 6, 7, 8]      # name, cigar_op, cigar_length, sequence, quality: columns behind data-dependent offsets
+
+
+def _session(rng, n):
+    """a session on ONE read table: an interleaving of (decode column X of object A), (take a selection B of A by mask /
+    index list with repeats / permutation / slice), (decode column Y of B, or again of A), alignment_to_interval on
+    objects, str(object) before decoding, two selections of one table decoded alternately.  Objects are numbered;
+    object 0 is the table.  Returns dict(objs=[global index list per object], steps=[...]); at the end every column of
+    every object has been decoded at least once."""
+    objs = [list(range(n))]
+    steps = []
+    todo = {0: set(range(9))}
+
+    def col(o, j):
+        steps.append(['col', o, j])
+        todo[o].discard(j)
+
+    def some_cols(o, k, prefer_var=True):
+        for _ in range(k):
+            pool = [j for j in (VAR_COLS if prefer_var and rng.random() < 0.8 else range(9))]
+            col(o, rng.choice(pool))
+
+    def select(parent):
+        base = objs[parent]
+        m = len(base)
+        how = rng.choice(['mask', 'perm', 'list', 'slice', 'sort']) if m >= 2 else rng.choice(['mask', 'list'])
+        if how == 'mask':
+            loc = [i for i in range(m) if rng.random() < 0.6]
+            if len(loc) == m and m > 1:
+                loc = loc[1:]
+            if not loc:
+                loc = [rng.randrange(m)]
+            arg = [i in loc for i in range(m)]
+        elif how in ('perm', 'sort'):
+            loc = list(range(m))
+            rng.shuffle(loc)
+            if loc == sorted(loc):
+                loc = loc[::-1]
+            arg = loc
+            how = 'list'
+        elif how == 'list':
+            loc = [rng.randrange(m) for _ in range(rng.randint(1, m + 1))] if m else []
+            arg = loc
+        else:
+            a = rng.randint(0, m - 1)
+            b = rng.randint(a + 1, m)
+            st = rng.choice([1, 1, 2, -1])
+            if st > 0:
+                loc = list(range(a, b, st))
+                arg = [a, b, st]
+            else:
+                loc = list(range(m))[::-1]
+                arg = [None, None, -1]
+        objs.append([base[i] for i in loc])
+        todo[len(objs) - 1] = set(range(9))
+        steps.append(['sel', parent, how, arg])
+        return len(objs) - 1
+
+    if rng.random() < 0.3:
+        steps.append(['print', 0])
+    some_cols(0, rng.choice([0, 1, 1, 2, 3]))
+    if rng.random() < 0.2:
+        steps.append(['iv', 0])
+    b = select(0)
+    if rng.random() < 0.25:
+        steps.append(['print', b])
+    some_cols(b, rng.choice([1, 2, 3]))
+    if rng.random() < 0.4:
+        steps.append(['iv', b])
+    some_cols(0, rng.choice([0, 1, 2]))
+    c = select(rng.choice([0, 0, b]))
+    # two selections decoded alternately (and the table in between)
+    for _ in range(rng.randint(2, 5)):
+        o = rng.choice([b, c, c, 0])
+        some_cols(o, 1)
+    if rng.random() < 0.4:
+        steps.append(['iv', rng.choice([b, c])])
+    if rng.random() < 0.35:
+        d = select(rng.choice([0, b, c]))
+        some_cols(d, rng.choice([1, 2]))
+    rest = [(o, j) for o in todo for j in todo[o]]
+    rng.shuffle(rest)
+    for o, j in rest:
+        steps.append(['col', o, j])
+    return dict(objs=objs, steps=steps)
+
+
 def _mk(rng, refs, recs, container=None, ks=6, n_writes=2, text=None, light=False, members=None):
     if text is None:
         text = rng.choice([b'', b'@HD\tVN:1.6\tSO:unsorted\n', b'@HD\tVN:1.0\n@PG\tID:x\n', b'@CO\tno newline at end'])
@@ -459,6 +550,8 @@ def _mk(rng, refs, recs, container=None, ks=6, n_writes=2, text=None, light=Fals
     if light:                       # a light case: at most one selection write besides the whole write
         case['writes'] = case['writes'][:1] + rng.sample(case['writes'][1:], min(1, len(case['writes']) - 1))
     case['order'] = rng.sample(range(9), 9)
+    if len(recs) >= 2 and len(enc_rec(max(recs, key=lambda r: len(_cigar(r))))) < 100000 and (rng.random() < (0.7 if not light else 0.42)):
+        case['session'] = _session(random.Random(rng.randrange(2 ** 30)), len(recs))
     if light and rng.random() < 0.75:
         return case                 # no companion file (two-file sessions) in three of four light cases
     # a second BAM file with a DIFFERENT reference dictionary (same number of references, or another number) that is
@@ -602,7 +695,7 @@ def generate(tier, seed):
                      end10=(rng.random() < 0.15)) for _ in range(rng.choice([2, 3, 4, 6]))]
         cases.append(_mk(rng, refs, recs, light=True, members=hows[t % len(hows)]))
     # 8. more random files (light: fewer chunk sizes and writes)
-    for t in range(190 if not thorough else 250):
+    for t in range(170 if not thorough else 250):
         nrefs = rng.choice([0, 1, 2, 3, 3])
         refs = _refs(rng, nrefs)
         recs = [_rec(rng, nrefs, end10=(rng.random() < 0.15)) for _ in range(rng.choice([2, 3, 4, 5]))]
@@ -761,6 +854,79 @@ def _sessions(case, p, d):
     return sess, sess_iv
 
 
+def _run_session(case, p, d):
+    """runs case['session'] on one freshly read table; returns (per-object write observations with the session's column
+    values as 'post', list of interval observations re-indexed by record number)"""
+    import numpy as np
+    import bionumpy as bnp
+    ses = case['session']
+    table = bnp.open(p).read()
+    objs = [table]
+    cols = [[None] * 9]
+    ivs = []
+    unstable = set()
+    for st in ses['steps']:
+        try:
+            if st[0] == 'print':
+                str(objs[st[1]])
+            elif st[0] == 'col':
+                o, j = st[1], st[2]
+                e = objs[o]
+                v = _col(e, len(ses['objs'][o]), FIELDS[j][0], FIELDS[j][1])
+                if cols[o][j] is None:
+                    cols[o][j] = v
+                elif cols[o][j] != v:
+                    unstable.add(o)
+            elif st[0] == 'sel':
+                par, how, arg = objs[st[1]], st[2], st[3]
+                if how == 'mask':
+                    new = par[np.array(arg, dtype=bool)]
+                elif how == 'list':
+                    new = par[np.array(arg, dtype=int)]
+                else:
+                    new = par[slice(arg[0], arg[1], arg[2])]
+                objs.append(new)
+                cols.append([None] * 9)
+            elif st[0] == 'iv':
+                o = st[1]
+                idx = ses['objs'][o]
+                n = len(case['recs'])
+                if len(objs[o]) == 0:
+                    continue
+                got = _ivs(bnp.alignments.alignment_to_interval(objs[o]))
+                if sorted(idx) == list(range(n)):          # a permutation of the table: re-index the rows by record number
+                    if len(got) == n:
+                        out = [None] * n
+                        for row, i in zip(got, idx):
+                            out[i] = row
+                        ivs.append(out)
+                    else:
+                        ivs.append('error:%d interval rows for %d records' % (len(got), n))
+        except Exception as ex:
+            if st[0] == 'sel':
+                objs.append(None)
+                cols.append([None] * 9)
+            elif st[0] == 'iv':
+                ivs.append(_err(ex))
+    res = []
+    for o, e in enumerate(objs):
+        idx = ses['objs'][o]
+        q = os.path.join(d, 's%d.bam' % o)
+        try:
+            if e is None:
+                raise ValueError('selection raised')
+            post = [[None] * 9] * len(idx) if o in unstable else \
+                [list(t) for t in zip(*[c if c is not None else [None] * len(idx) for c in cols[o]])]
+            with bnp.open(q, 'w') as f:
+                f.write(e)
+            raw = open(q, 'rb').read()
+            res.append(dict(eof=raw.endswith(EOF_MARKER), stream=gzip.decompress(raw).hex(), reread=_recs(bnp.open(q).read()),
+                            post=post))
+        except Exception as ex:
+            res.append(dict(error=_err(ex)))
+    return res, ivs
+
+
 def observe(case):
     import numpy as np
     import bionumpy as bnp
@@ -854,6 +1020,9 @@ def observe(case):
                 ws.append(dict(error=_err(ex)))
         out['writes'] = ws
         out['sess'], out['sess_iv'] = _sessions(case, p, d)
+        if case.get('session'):
+            out['session'], extra_iv = _run_session(case, p, d)
+            out['sess_iv'] = list(out['sess_iv']) + extra_iv
         return out
     finally:
         shutil.rmtree(d, ignore_errors=True)
@@ -945,7 +1114,11 @@ def to_coq(case, o):
         else:
             chunked.append('(%s, %s, %s)' % (cz(c[0]), zl(c[1]), 'w' if c[2] == whole else _orecs(c[2])))
     writes = []
-    for w, wo in zip(case['writes'], o['writes']):
+    all_w = list(zip(case['writes'], o['writes']))
+    if case.get('session'):
+        so = o.get('session') or [dict(error='missing')] * len(case['session']['objs'])
+        all_w += [(dict(mode=1, idx=idx), wo) for idx, wo in zip(case['session']['objs'], so)]
+    for w, wo in all_w:
         idx = list(range(n)) if w['mode'] != 1 else w['idx']
         if 'error' in wo:
             wo = dict(eof=False, stream='', reread=[BAD_OREC], post=[BAD_OREC])
